@@ -1025,7 +1025,46 @@ def check_zero_tolerance(ctx: Ctx) -> None:
     ctx.floor("16.6-zero-tolerance", 4)
 
 
+def check_overrides_forward(ctx: Ctx) -> None:
+    """16.5-forwarded: an approximator method that specialises its base method and hands the work over with
+    ``super().<same method>(...)`` passes on every argument it received under the base's own parameter names: an argument
+    left out silently takes the base's default (all the components instead of the requested subset, the default step
+    instead of the requested one)."""
+    n = 0
+    for rel in sorted(r for r in ctx.index.modules if r.startswith("utils/derivatives/") and r.endswith(".py")):
+        for cls in ctx.index.module(rel).classes.values():
+            for mname, f in cls.methods.items():
+                sup = [c for c in walk_body(f) if isinstance(c, ast.Call) and isinstance(c.func, ast.Attribute) and c.func.attr == mname and isinstance(c.func.value, ast.Call) and dotted(c.func.value.func) == "super"]
+                if not sup:
+                    continue
+                base = None
+                for b in ctx.index.mro(cls)[1:]:
+                    if mname in b.methods:
+                        base = b.methods[mname]
+                        break
+                if base is None:
+                    continue
+                base_params = [a.arg for a in [*base.args.args[1:], *base.args.kwonlyargs]]
+                own = [a.arg for a in [*f.args.args[1:], *f.args.kwonlyargs]]
+                for c in sup:
+                    if any(isinstance(a, ast.Starred) for a in c.args):
+                        continue
+                    passed = {k.arg for k in c.keywords if k.arg} | set(base_params[: len(c.args)]) | set(getattr(c, "_gv_bind", {}) or {})
+                    for p_ in own:
+                        if p_ not in base_params:
+                            continue
+                        n += 1
+                        ok = p_ in passed
+                        if ok:
+                            v = kwarg(c, p_) or (c.args[base_params.index(p_)] if base_params.index(p_) < len(c.args) else None)
+                            # what is passed derives from the parameter (possibly re-bound before: `step = ... step ...`)
+                            ok = v is not None and p_ in names_in(v)
+                        ctx.ob("16.5-forwarded", cname(rel, cls.name, mname), ok, f"{cls.name}.{mname} receives `{p_}` and delegates to the base method without passing it on: the base then uses its default for `{p_}`", node=c, stmt=f"{p_} forwarded to super().{mname}")
+    ctx.floor("16.5-forwarded", 3)
+
+
 def run(ctx: Ctx) -> None:
+    check_overrides_forward(ctx)
     check_bound_sources(ctx)
     check_variable_indices(ctx)
     check_zero_tolerance(ctx)
